@@ -128,7 +128,8 @@ def gen_file(rng):
 
     def extra(index, sid, pairs):
         if longopt and index > 0 and rng.random() < 0.5:
-            n = rng.choice([60, 80, 90, 95, 96, 97, 150, 190, 300, 600])
+            n = rng.choice([60, 80, 90, 95, 96, 97, 150, 190, 300, 600,
+                            600, 4000, 4090, 4200, 9000])
             pairs = pairs + [('x-long', 'w' * n)]
         return pairs
     st = Style(rng=rng, extra=extra, blank=rng.choice([0, 0, 2]),
@@ -230,7 +231,7 @@ def run(ctx):
     done = 0
     while done < nfiles:
         data, layout = gen_file(rng)
-        if len(data) > 6000:
+        if len(data) > 24000:
             continue
         done += 1
         check_file(data, layout, obs, rng, pads, sizes,
